@@ -20,7 +20,11 @@ void harness(void) {
 #endif
 #if ALIAS <= 1
   VP_MAT_DECL(B, B_PR, B_PRS);
+#ifdef SRC_NC
+  VP_MAT_SETUP(B, B_PR, B_PRS, NR, SRC_NC, B_R0, B_W0, B_WIN);
+#else
   VP_MAT_SETUP(B, B_PR, B_PRS, NR, NC, B_R0, B_W0, B_WIN);
+#endif
 #else
   mzd_t *B = C;
 #endif
@@ -59,11 +63,7 @@ void harness(void) {
   vh_r = in_hr;
   vh_w = in_hw;
   VP_ASSUME(vh_r >= -(B_R0) && vh_r < (B_PR) - (B_R0) && vh_w >= -(B_W0) && vh_w < (B_PRS) - (B_W0));
-  /* destination C (NR x NC), source B' = B restricted to SRC_NC columns */
-  B->ncols        = SRC_NC;
-  B->width        = (SRC_NC + 63) / 64;
-  B->high_bitmask = VP_LMASK(SRC_NC % 64);
-  B->flags        = (uint8_t)((B->flags & VP_FLAG_WINDOWED) | ((SRC_NC % 64) ? VP_FLAG_EXCESS : 0));
+  /* destination C (NR x NC), source B (NR x SRC_NC) */
   VP_PRE(REQ_mzd_copy_row(C, in_crow, B, in_brow));
   VP_SNAPSHOT();
   mzd_copy_row(C, in_crow, B, in_brow);
